@@ -6,6 +6,14 @@ VERIF = os.path.dirname(os.path.dirname(os.path.abspath(__file__)))
 props = [json.loads(l) for l in open(os.path.join(VERIF, "properties.jsonl"))]
 
 CLAIMS = {
+ "C01": dict(
+  text="The whole pipeline is modelled in Gallina (lexer, Pratt parser, compiler with symbol tables, VM) next to an independent definitional source semantics Sem. Proved: parse(print e)=e for the reduced Pratt parser instantiated with the precedence table regenerated from parser/precedence.go (all trees over all binary operators, unbounded), and the equality of the parser model's precedence function with that table. Tied to the code on every run by exact agreement of tokens+positions, ASTs, bytecode and results between the implementation and the extracted models on seeded grammar-directed programs, and judged by the Sem oracle (value, error class, print trace).",
+  note="Trusted: Coq kernel, extraction, harness, generators; Sem states the source-level rules and is itself validated against the implementation; the compile-correctness theorem over the full models (C01_back) is not proved yet - the back end is covered by exact bytecode/result correspondence and the Sem oracle. Known finding: compound assignment to an index/attribute target evaluates the target twice.",
+  technique="Rocq theorem on regenerated tables + extracted-model correspondence at four stages + definitional-semantics oracle", ref="DESIGN.md section 5 C01"),
+ "C02": dict(
+  text="Closure simulation theorem (Coq): for the reduced closure language, whenever the lexical source semantics evaluates a program, the code produced by the cell-passing closure conversion (MakeCell for own locals, LoadCell for received cells) computes a related value, for capture at any depth and any call path. The reduced source semantics is run against the implementation on random programs; the full compiler/VM models agree exactly with the real bytecode and results; Sem (lexical by construction) judges nestings of depth 1..5 over in-model escape routes, and route independence judges list.map/each/filter, sorted, try, spawn, go+channel and vm.Get+vm.Call from Go.",
+  note="Trusted: Coq kernel, extraction, harness; the theorem is about the reduced language of model/Clos.v, tied behaviourally and by inspection of the real bytecode (no positional MakeCell); goroutine timing not modelled.",
+  technique="Rocq simulation proof on reduced closure language + model correspondence + Sem/route-independence oracles", ref="DESIGN.md section 5 C02, Appendix A.8"),
  "C13": dict(
   text="Theorems (Coq, closed under the global context) over a Gallina model of filepath.Clean/Join, os.ResolvePath and VirtualOS.findMount: confinement of every resolved path under the base for all strings; longest component-wise mount prefix, refusal iff under no mount. The model is tied to the code by an exhaustive comparison over the property's whole path alphabet plus random paths, and an independent oracle checks the implementation's outputs and real filesystem effects.",
   note="Trusted: Coq kernel, extraction (ExtrOcamlBasic), the Go harness and Python oracle; Go's filepath/strings functions are modelled, not verified; mount keys assumed clean absolute paths equal to Mount.Target.",
